@@ -414,7 +414,25 @@ func okFail(b bool) string {
 	return "failed"
 }
 
+// c20Only is a development aid: VERIF_C20_ONLY=<name>[,<name>...] restricts a run to the named families ("main" = the
+// histories of this file). Unset (every regular run) it selects everything.
+func c20Only(name string) bool {
+	only := os.Getenv("VERIF_C20_ONLY")
+	if only == "" {
+		return true
+	}
+	for _, n := range strings.Split(only, ",") {
+		if n == name {
+			return true
+		}
+	}
+	return false
+}
+
 func c20Run(c *core.Ctx) {
+	if !c20Only("main") {
+		return
+	}
 	maxLen := 3
 	if c.Thorough() {
 		maxLen = 4
@@ -488,7 +506,7 @@ func c20Run(c *core.Ctx) {
 }
 
 func c20Replay(c *core.Ctx, payload json.RawMessage) {
-	if c20RemoteReplay(c, payload) || c20TwinsReplay(c, payload) || c20FailedReplay(c, payload) || c20RepoReplay(c, payload) {
+	if c20RemoteReplay(c, payload) || c20TwinsReplay(c, payload) || c20FailedReplay(c, payload) || c20RepoReplay(c, payload) || c20BorrowReplay(c, payload) || c20ManyReplay(c, payload) || c20AttrsReplay(c, payload) || c20ReloadReplay(c, payload) || c20ContendReplay(c, payload) {
 		return
 	}
 	var cs c20Case
